@@ -167,49 +167,59 @@ def multi_config(ctx, mod, configs=('rel-coll', 'rel-default')):
         ctx.configs_used.extend(sub.configs_used)
 
 
+def kill_one(pid, patch, seed):
+    """apply one armed edit to a scratch copy of the repository and run the pack on it; returns a status dict"""
+    name = os.path.basename(patch)
+    expect = None
+    meta = patch[:-5] + '.json'
+    if os.path.exists(meta):
+        expect = json.load(open(meta)).get('expect_rule')
+    tmp = tempfile.mkdtemp(prefix='kill.')
+    try:
+        repo = os.path.join(tmp, 'repo')
+        subprocess.run(['rsync', '-a', '--exclude', 'target', '--exclude', '.git', extract.REPO + '/', repo + '/'], check=True)
+        r = subprocess.run(['patch', '-p1', '-s', '--no-backup-if-mismatch', '-i', patch], cwd=repo, capture_output=True, text=True)
+        if r.returncode != 0:
+            return {'patch': name, 'status': 'skipped (does not apply to the current tree)'}
+        c2 = Ctx(pid, 'quick', seed)
+        c2.repo = repo
+        try:
+            run_pack(c2)
+            fired = [v['key'] for v in c2.violations]
+        except SystemExit as e:
+            return {'patch': name, 'status': 'extraction failed: %s' % e}
+        hit = [k for k in fired if (expect is None or expect in k)]
+        return {'patch': name, 'status': 'killed' if hit else 'MISSED', 'fired': fired[:6]}
+    finally:
+        shutil.rmtree(tmp, ignore_errors=True)
+
+
 def kill_tests(pid, tier, seed):
-    """thorough tier: apply each armed seeded edit to a scratch copy and require the pack to fire"""
-    out = []
+    """thorough tier: apply each armed seeded edit to a scratch copy and require the pack to fire (one subprocess per edit, run in parallel)"""
+    import concurrent.futures
     d = os.path.join(VERIF, 'selftest', pid)
     if not os.path.isdir(d):
-        return out, True
-    allok = True
-    for name in sorted(os.listdir(d)):
-        if not name.endswith('.diff'):
-            continue
-        patch = os.path.join(d, name)
-        expect = None
-        meta = patch[:-5] + '.json'
-        if os.path.exists(meta):
-            expect = json.load(open(meta)).get('expect_rule')
-        tmp = tempfile.mkdtemp(prefix='kill.')
-        try:
-            repo = os.path.join(tmp, 'repo')
-            subprocess.run(['rsync', '-a', '--exclude', 'target', '--exclude', '.git', extract.REPO + '/', repo + '/'], check=True)
-            r = subprocess.run(['patch', '-p1', '-s', '--no-backup-if-mismatch', '-i', patch], cwd=repo, capture_output=True, text=True)
-            if r.returncode != 0:
-                out.append({'patch': name, 'status': 'skipped (does not apply to the current tree)'})
-                continue
-            c2 = Ctx(pid, 'quick', seed)
-            c2.repo = repo
-            try:
-                run_pack(c2)
-                fired = [v['key'] for v in c2.violations]
-            except SystemExit as e:
-                fired = []
-                out.append({'patch': name, 'status': 'extraction failed: %s' % e})
-                allok = False
-                continue
-            hit = [k for k in fired if (expect is None or expect in k)]
-            out.append({'patch': name, 'status': 'killed' if hit else 'MISSED', 'fired': fired[:6]})
-            if not hit:
-                allok = False
-        finally:
-            shutil.rmtree(tmp, ignore_errors=True)
+        return [], True
+    patches = [os.path.join(d, n) for n in sorted(os.listdir(d)) if n.endswith('.diff')]
+
+    def one(patch):
+        r = subprocess.run([sys.executable, '-m', 'analysis.runner', '--kill-one', pid, patch], cwd=VERIF, capture_output=True, text=True, env=dict(os.environ, VERIF_SEED=str(seed)))
+        for line in reversed(r.stdout.splitlines()):
+            if line.startswith('KILL-ONE '):
+                return json.loads(line[len('KILL-ONE '):])
+        return {'patch': os.path.basename(patch), 'status': 'checker error: %s' % (r.stdout + r.stderr)[-300:]}
+    with concurrent.futures.ThreadPoolExecutor(max_workers=max(2, min(6, (os.cpu_count() or 4) // 2))) as ex:
+        out = list(ex.map(one, patches))
+    allok = all(o['status'] == 'killed' or o['status'].startswith('skipped') for o in out)
     return out, allok
 
 
 def main(argv):
+    if len(argv) == 3 and argv[0] == '--kill-one':
+        seed = int(os.environ.get('VERIF_SEED', '0') or 0)
+        res = kill_one(argv[1], argv[2], seed)
+        print('KILL-ONE ' + json.dumps(res))
+        return 0
     if len(argv) < 2:
         print('usage: check <ID> quick|thorough [--replay report.json]')
         return 2
